@@ -412,3 +412,10 @@ Definition stage_extract_pre (pre : links) (d : list string) (ms : list member) 
 (* case = (dest, links present before, members, accepted by the implementation's check) *)
 Definition check_tar_pre (c : list string * links * list member * bool) : bool :=
   let '(d, pre, ms, acc) := c in Bool.eqb (tar_check_pre pre d ms) acc.
+
+(* ---------------------------------------------------------------- migrated components *)
+(* Job.stageIn of a migrated component: the working directory <stage>/<component> is removed and ONE link,
+   named by the last segment of the reference, is made in the stage directory (the parent of the working
+   directory); that link is the component's working directory from then on. *)
+Definition migrate_entry (work : list string) (src : string) : option (list string) :=
+  stage_entry (removelast work) src.
